@@ -180,7 +180,7 @@ func runC33(c *Ctx) {
 				continue // no checker runs for an unknown version, so err stays nil
 			}
 			res := ssau.AbsWalk(sc, ssau.AbsEnvFunc(func(i *ssa.If, visit int) (bool, bool) {
-				return syms.evalCond(i.Cond, env, visit, i.Block().Comment)
+				return syms.evalCond(i.Cond, env, visit, blockComment(i))
 			}))
 			if res.Unknown != nil || res.Ret == nil {
 				okAll = false
